@@ -21,17 +21,13 @@ two coincide and that, there, the whole builder behaves identically under both:
 -/
 import CtyModel.Lemmas.RefineEnds
 import CtyModel.Lemmas.RefineBase
+import CtyModel.RefineIdeal
 namespace CtyModel
 namespace Refine
 namespace D05
 open NumCmp
 
 /-! ## where `rawNumberEqual` is exact comparison -/
-
-/-- an integer (exponent ≥ 0) or an infinity -/
-def intLike : Num → Bool
-  | .fin _ _ e _ => decide (e ≥ 0)
-  | .inf _ => true
 
 theorem beq_eq_icmp' (a b : Int) : (a == b) = ((if a < b then (-1:Int) else if a = b then 0 else 1) == 0) := by
   by_cases h1 : a < b
@@ -112,9 +108,6 @@ def TextExactOn (P : Num → Bool) : Prop :=
 theorem intLike_textExact : TextExactOn intLike := fun _ _ ha hb => rawEqual_intLike ha hb
 
 /-! ## the total exact oracle -/
-
-/-- exact comparison, always answering -/
-@[reducible] def idealOracle : EqOracle := ⟨fun a b => some (Num.cmp a b == 0)⟩
 
 /-- … is an `ExactOracle` (not declared an instance: theorems name it) -/
 @[instance_reducible] def exactIdealOracle : ExactOracle where
